@@ -164,6 +164,26 @@ def scenarios():
             out.append(dict(name="des-tables", lazy=False, make=mk_des, expected=want, code=codes(A(pdes, "_load_tables"), pdes.des_encrypt_int_block), init_names=()))
     except (AttributeError, ImportError, KeyError) as ex:      # an internal name this scenario leans on is gone: not schedule-explored
         SKIPPED.append(f"scenario 'H: the DES tables are built on the first block operation' not built: {type(ex).__name__}: {ex}")
+    # H2: the Blowfish tables (pi digits) are built when the first engine is made
+    try:
+        import passlib.crypto._blowfish.base as pbf
+        if hasattr(pbf, "_init_constants"):
+            def mk_bf():
+                pbf.BLOWFISH_P = pbf.BLOWFISH_S = None
+
+                def body():
+                    e = pbf.BlowfishEngine()
+                    e.expand(e.key_to_words(b"key"))
+                    return e.encipher(1, 2)
+                return [body, body]
+            pbf.BLOWFISH_P = pbf.BLOWFISH_S = None
+            e0 = pbf.BlowfishEngine()
+            e0.expand(e0.key_to_words(b"key"))
+            want_bf = e0.encipher(1, 2)
+            out.append(dict(name="blowfish-tables", lazy=False, make=mk_bf, expected=[want_bf, want_bf],
+                            code=codes(A(pbf, "_init_constants"), A(pbf.BlowfishEngine, "__init__")), init_names=()))
+    except (AttributeError, ImportError, KeyError) as ex:
+        SKIPPED.append(f"scenario 'blowfish-tables' not built: {type(ex).__name__}: {ex}")
     try:
         # I: digest lookups cache their result on first use
         import passlib.crypto.digest as pdig
